@@ -267,6 +267,26 @@ class Functor:
         return self
 
 
+class Pointer:
+    """Address of an lvalue (&x): dereferencing gives the lvalue back."""
+
+    def __init__(self, lv):
+        self.lv = lv
+
+    def copy(self):
+        return self
+
+
+class Inserter:
+    """std::back_inserter(v) / std::inserter: an output iterator appending to a vector."""
+
+    def __init__(self, vec):
+        self.vec = vec
+
+    def copy(self):
+        return self
+
+
 class NotFn:
     def __init__(self, inner):
         self.inner = inner
@@ -415,6 +435,7 @@ class Interp:
                 self.methods.setdefault(d["record"], []).append(d)
         self.trace_arith = []
         self.executed = set()   # pattern locations of every function evaluated abstractly
+        self.scaled = set()     # functions scaling a tracked integer by a constant (outside the order-type fragment)
         self.divzero = []       # divisions by a value known to be exactly zero (defined for IEEE types only)
 
     # -- lookup -----------------------------------------------------------------------
@@ -520,6 +541,8 @@ class Interp:
     def construct(self, ctor_decl, args, node=None):
         """Construct an object of a library class through the given constructor."""
         rec = self.u.decls.get(ctor_decl["record"])
+        if rec is not None and rec.get("lambda") and args and isinstance(val(args[0]), Closure):
+            return val(args[0])
         f = self.func(ctor_decl["id"])
         o = Obj(rec["qn"], rec)
         for fd in rec.get("fields", ()):
@@ -537,8 +560,10 @@ class Interp:
 
     def memberwise(self, src, move=False):
         """Defaulted copy / move construction of a library object."""
+        if isinstance(src, (Closure, Functor, NotFn, Inserter)):
+            return src   # callables / inserters passed by value
         if not isinstance(src, Obj):
-            raise OutOfFragment("memberwise copy of non-object")
+            raise OutOfFragment("memberwise copy of non-object %r" % (src,))
         o = Obj(src.cls, src.rec)
         for k, v in src.fields.items():
             o.fields[k] = self.copy_or_move(v, src.fields, k, move)
@@ -701,10 +726,60 @@ class Interp:
             raise _Continue()
         elif k == "NullStmt":
             pass
-        elif k in ("SwitchStmt", "GotoStmt", "CXXTryStmt", "LabelStmt"):
+        elif k == "SwitchStmt":
+            self.exec_switch(s)
+        elif k in ("GotoStmt", "CXXTryStmt", "LabelStmt"):
             raise OutOfFragment("statement %s" % k)
         else:
             self.ev(s)
+
+    def exec_switch(self, s):
+        ch = [c for c in s["ch"] if c is not None]
+        if len(ch) < 2:
+            raise OutOfFragment("switch shape")
+        cond, body = ch[-2], ch[-1]
+        v = self.rv(cond)
+        if not isinstance(v, int):
+            raise OutOfFragment("switch on %r" % (v,))
+        if body["k"] != "CompoundStmt":
+            raise OutOfFragment("switch body")
+        # flatten: [(labels or None, statement)]
+        seq = []
+        for c in kids(body):
+            labels = None
+            x = c
+            while x is not None and x["k"] in ("CaseStmt", "DefaultStmt"):
+                labels = labels or []
+                sub = kids(x)
+                if x["k"] == "DefaultStmt":
+                    labels.append("default")
+                    x = sub[0] if sub else None
+                else:
+                    lv = sub[0]
+                    val_ = lv.get("cv")
+                    if val_ is None:
+                        val_ = self.rv(lv)
+                    labels.append(int(val_))
+                    x = sub[-1] if len(sub) > 1 else None
+            seq.append((labels, x))
+        start = None
+        for i, (labels, _) in enumerate(seq):
+            if labels and v in [l for l in labels if l != "default"]:
+                start = i
+                break
+        if start is None:
+            for i, (labels, _) in enumerate(seq):
+                if labels and "default" in labels:
+                    start = i
+                    break
+        if start is None:
+            return
+        try:
+            for labels, st in seq[start:]:
+                if st is not None:
+                    self.exec(st)
+        except _Break:
+            pass
 
     def decl_var(self, d):
         frame = self.frames[-1]
@@ -725,6 +800,14 @@ class Interp:
             frame[d["id"]] = v if isinstance(v, LV) else box(v)
         else:
             frame[d["id"]] = box(val(v) if self._is_construct(init) else copy_value(v))
+        # structured bindings: each name denotes an expression over the (hidden) decomposed variable
+        for b in d.get("bind", ()):
+            if b.get("hold") is not None:
+                self.decl_var(b["hold"])
+            if b.get("e") is None:
+                raise OutOfFragment("structured binding without expression")
+            r = self.ev(b["e"])
+            frame[b["id"]] = r if isinstance(r, LV) else box(r)
 
     def default_value(self, t):
         t0 = t.replace("const ", "").strip()
@@ -744,6 +827,51 @@ class Interp:
         if t0.startswith("std::shared_ptr<"):
             return SharedPtr(None)
         return UNINIT
+
+    def _elem_type(self, vec_qn):
+        inner = vec_qn[len("std::vector<"):]
+        depth, out = 0, ""
+        for ch in inner:
+            if ch == "<":
+                depth += 1
+            elif ch == ">":
+                if depth == 0:
+                    break
+                depth -= 1
+            elif ch == "," and depth == 0:
+                break
+            out += ch
+        return out.strip()
+
+    def _needs_construct(self, vec_qn, arg):
+        et = self._elem_type(vec_qn)
+        rec = self.find_record(et) if not et.startswith("std::") else None
+        return rec is not None and not (isinstance(arg, Obj) and arg.cls == rec["qn"])
+
+    def _construct_element(self, vec_qn, args, e):
+        et = self._elem_type(vec_qn)
+        rec = self.find_record(et) if not et.startswith("std::") else None
+        if rec is None:
+            raise OutOfFragment("emplace_back of %s from %d arguments" % (et, len(args)))
+        from .ast import class_of_type
+        best = None
+        for d in self.methods.get(rec["id"], ()):
+            if not d.get("ctor") or d.get("deleted") or len(d["params"]) != len(args):
+                continue
+            ok = True
+            for prm, a in zip(d["params"], args):
+                v = val(a)
+                cls = class_of_type(prm["type"])
+                if isinstance(v, Obj) and cls is not None and not v.cls.split("<")[0].endswith(cls):
+                    ok = False
+                if not isinstance(v, Obj) and cls is not None:
+                    ok = False
+            if ok and self.func(d["id"]) is not None:
+                best = d
+                break
+        if best is None:
+            raise OutOfFragment("no constructor of %s for emplace_back with %d arguments" % (et, len(args)))
+        return self.construct(best, list(args), e)
 
     def default_elem(self, vec_qn):
         """Value-initialised element of std::vector<E>."""
@@ -910,7 +1038,7 @@ class Interp:
             raise OutOfFragment("member")
         if d["k"] == "field":
             o = val(base)
-            if isinstance(o, Iter):  # it->field
+            if isinstance(o, (Iter, Pointer)):  # it->field / p->field
                 o = val(self.deref(o))
             if isinstance(o, SharedPtr):
                 if o.target is None:
@@ -947,7 +1075,7 @@ class Interp:
             return NULLPTR
         if ck == "PointerToBoolean":
             v = self.rv(c)
-            return 0 if v is NULLPTR else 1
+            return 0 if (v is NULLPTR or (isinstance(v, SharedPtr) and v.target is None)) else 1
         raise OutOfFragment("cast kind %s" % ck)
 
     def _explicit_cast(self, e):
@@ -959,6 +1087,16 @@ class Interp:
 
     ev_CXXStaticCastExpr = ev_CXXFunctionalCastExpr = ev_CStyleCastExpr = _explicit_cast
     ev_CXXConstCastExpr = _explicit_cast   # value-preserving; the cast itself is R-OWN.cast's business
+
+    def ev_ArraySubscriptExpr(self, e):
+        a, i = self.rv(e["ch"][0]), self.rv(e["ch"][1])
+        if isinstance(a, Iter):
+            return self.deref(Iter(a.vec, a.pos + i))
+        if isinstance(a, Vec):
+            if i < 0 or i >= len(a.items):
+                raise ModelUB("array subscript %d out of range (size %d)" % (i, len(a.items)))
+            return LV(a.items, i)
+        raise OutOfFragment("subscript of %r" % (a,))
 
     def ev_ConditionalOperator(self, e):
         c, a, b = e["ch"]
@@ -973,7 +1111,11 @@ class Interp:
             return self.deref(self.rv(c))
         if op == "&":
             v = self.ev(c)
-            raise OutOfFragment("address-of")
+            if isinstance(v, LV):
+                return Pointer(v)
+            if isinstance(v, Obj):
+                return Pointer(box(v))
+            raise OutOfFragment("address-of %r" % (v,))
         if op in ("++", "--"):
             lv = self.ev(c)
             if not isinstance(lv, LV):
@@ -1000,6 +1142,10 @@ class Interp:
         raise OutOfFragment("unary %s" % op)
 
     def deref(self, v):
+        if isinstance(v, Pointer):
+            return v.lv
+        if v is NULLPTR:
+            raise ModelUB("null pointer dereference")
         if isinstance(v, Iter):
             n = len(v.vec.items)
             idx = (n - 1 - v.pos) if v.rev else v.pos
@@ -1056,6 +1202,9 @@ class Interp:
                 other = y if x is NULLPTR else x
                 isnull = other is NULLPTR or (isinstance(other, SharedPtr) and other.target is None)
                 return 1 if (isnull == (op == "==")) else 0
+            if isinstance(x, Pointer) and isinstance(y, Pointer) and op in ("==", "!="):
+                same = x.lv.c is y.lv.c and x.lv.k == y.lv.k
+                return 1 if (same == (op == "==")) else 0
             raise OutOfFragment("comparison %s of %r and %r" % (op, x, y))
         if op in ("+", "-", "*", "/") and isinstance(x, Sc) and isinstance(y, Sc):
             if op == "/" and y.v == 0:
@@ -1082,7 +1231,11 @@ class Interp:
                 # scaling by a compile-time constant: allowed only where flagged by the caller
                 # (allow_int_arith: constant propagation through pure functions of small integer constants)
                 if not (getattr(self, "allow_const_scaling", False) or self._int_arith_here()):
-                    raise OutOfFragment("integer %s by a constant - outside the order-type fragment" % op)
+                    # e.g. the midpoint of a hand-written bisection.  Evaluated exactly; the function is recorded:
+                    # for it the enumeration is exhaustive up to the size bound, not by the order-type argument.
+                    fn = self.frames[-1]["__fn__"] if self.frames else None
+                    if fn is not None:
+                        self.scaled.add(fn.pqn)
                 if op == "*":
                     return fit(x * y, int_type(self.T(e)))
                 if y == 0:
@@ -1217,6 +1370,19 @@ class Interp:
                           "std::not_equal_to<")):
             return Functor({"less": "<", "greater": ">", "less_equal": "<=", "greater_equal": ">=",
                             "equal_to": "==", "not_equal_to": "!="}[rq[5:].split("<")[0]])
+        if rq.startswith("std::pair<"):
+            pr = Obj("std::pair", None)
+            if len(vals) == 2:
+                pr.fields = {"first": copy_value(vals[0]), "second": copy_value(vals[1])}
+                return pr
+            if len(vals) == 1 and isinstance(vals[0], Obj) and vals[0].cls == "std::pair":
+                return vals[0].copy()
+            if not vals:
+                pr.fields = {"first": 0, "second": 0}
+                return pr
+        if rq.startswith(("std::back_insert_iterator<", "std::insert_iterator<")):
+            if vals and isinstance(vals[0], Inserter):
+                return vals[0]
         if rq.startswith("std::initializer_list<"):
             if vals and isinstance(vals[0], Vec):
                 return vals[0]
@@ -1244,7 +1410,7 @@ class Interp:
             if ci.obj is not None:
                 o = self.ev(ci.obj)
                 this = val(o)
-                if isinstance(this, Iter):
+                if isinstance(this, (Iter, Pointer)):
                     this = val(self.deref(this))
                 if isinstance(this, SharedPtr):
                     this = this.target
@@ -1262,6 +1428,13 @@ class Interp:
             return box(this)
         return self.std_call(ci, e)
 
+    def _emit(self, out, k, value):
+        """Write `value` as the k-th output of an algorithm (plain iterator or back_inserter)."""
+        if isinstance(out, Inserter):
+            out.vec.items.append(copy_value(value))
+        else:
+            self.deref(Iter(out.vec, out.pos + k)).store(copy_value(value))
+
     def _invoke(self, fn, args):
         """Call a closure / functor object with arbitrary arguments and return its value."""
         fn = val(fn)
@@ -1272,6 +1445,10 @@ class Interp:
             return self.call(f, fn, list(args))
         if isinstance(fn, (Functor, NotFn)):
             return 1 if self._callable(fn, *args) else 0
+        if isinstance(fn, tuple) and fn and fn[0] == "fnref":
+            f = self.func(fn[1])
+            if f is not None:
+                return self.call(f, None, list(args))
         raise OutOfFragment("callable %r" % (fn,))
 
     def _callable(self, fn, *args):
@@ -1328,6 +1505,8 @@ class Interp:
         V = [val(a) for a in A]
         obj = self.ev(ci.obj) if ci.obj is not None else None
         o = val(obj) if obj is not None else None
+        if isinstance(o, Pointer):   # p->size(), (*p)[i] on std containers
+            o = val(o.lv)
 
         # ---- free std functions
         if ci.kind == "free":
@@ -1409,6 +1588,35 @@ class Interp:
                     if not ok:
                         return 0
                 return 1
+            if base == "std::make_pair" and len(A) == 2:
+                pr = Obj("std::pair", None)
+                pr.fields = {"first": copy_value(A[0]), "second": copy_value(A[1])}
+                return pr
+            if base == "std::get" and len(A) == 1:
+                import re as _re
+                m_ = _re.search(r"std::get<(\d+)", qn)
+                x_ = V[0]
+                if m_ and isinstance(x_, Vec):
+                    i_ = int(m_.group(1))
+                    if i_ >= len(x_.items):
+                        raise ModelUB("std::get index out of range")
+                    return LV(x_.items, i_)
+                if m_ and isinstance(x_, Obj) and x_.cls == "std::pair":
+                    return LV(x_.fields, "first" if m_.group(1) == "0" else "second")
+            if base in ("std::back_inserter", "std::inserter", "std::front_inserter"):
+                if isinstance(V[0], Vec) and base == "std::back_inserter":
+                    return Inserter(V[0])
+            if base == "std::unique_copy":
+                first, last, out = V[0], V[1], V[2]
+                prev = None
+                n_out = 0
+                for i in range(first.pos, last.pos):
+                    x_ = first.vec.items[i]
+                    if prev is None or not self._eq(prev, x_):
+                        self._emit(out, n_out, x_)
+                        n_out += 1
+                        prev = x_
+                return out if isinstance(out, Inserter) else Iter(out.vec, out.pos + n_out)
             if base == "std::clamp":
                 x, lo, hi = A[0], A[1], A[2]
                 comp = A[3] if len(A) > 3 else None
@@ -1417,6 +1625,24 @@ class Interp:
                 if self._less(comp, hi, x):
                     return hi
                 return x
+            if base in ("std::minmax", "std::min", "std::max") and len(A) >= 1 and isinstance(V[0], Vec):
+                comp = A[1] if len(A) > 1 else None
+                items = V[0].items
+                if not items:
+                    raise ModelUB("min/max of an empty initializer list")
+                lo = hi = items[0]
+                for x_ in items[1:]:
+                    if self._less(comp, x_, lo):
+                        lo = x_
+                    if not self._less(comp, x_, hi):
+                        hi = x_
+                if base == "std::min":
+                    return copy_value(lo)
+                if base == "std::max":
+                    return copy_value(hi)
+                pr = Obj("std::pair", None)
+                pr.fields = {"first": copy_value(lo), "second": copy_value(hi)}
+                return pr
             if base == "std::minmax" and len(A) >= 2 and not isinstance(V[0], Vec):
                 comp = A[2] if len(A) > 2 else None
                 a_, b_ = A[0], A[1]
@@ -1456,13 +1682,13 @@ class Interp:
                         acc = copy_value(self._invoke(fn, [box(acc), el]))
                 return acc
             if base in ("std::copy", "std::copy_n", "std::move") and len(V) == 3 and isinstance(V[0], Iter) and \
-                    isinstance(V[2], Iter):
+                    isinstance(V[2], (Iter, Inserter)):
                 first = V[0]
                 n_ = V[1] if base == "std::copy_n" else V[1].pos - first.pos
                 out = V[2]
                 for i in range(n_):
-                    self.deref(Iter(out.vec, out.pos + i)).store(copy_value(self.deref(Iter(first.vec, first.pos + i))))
-                return Iter(out.vec, out.pos + n_)
+                    self._emit(out, i, self.deref(Iter(first.vec, first.pos + i)))
+                return out if isinstance(out, Inserter) else Iter(out.vec, out.pos + n_)
             if base in ("std::fill", "std::fill_n"):
                 first = V[0]
                 n_ = V[1] if base == "std::fill_n" else V[1].pos - first.pos
@@ -1492,13 +1718,13 @@ class Interp:
                     out, fn = V[2], A[3]
                     for i in range(last.pos - first.pos):
                         r_ = self._invoke(fn, [LV(first.vec.items, first.pos + i)])
-                        self.deref(Iter(out.vec, out.pos + i)).store(copy_value(r_))
-                    return Iter(out.vec, out.pos + last.pos - first.pos)
+                        self._emit(out, i, r_)
+                    return out if isinstance(out, Inserter) else Iter(out.vec, out.pos + last.pos - first.pos)
                 first2, out, fn = V[2], V[3], A[4]
                 for i in range(last.pos - first.pos):
                     r_ = self._invoke(fn, [LV(first.vec.items, first.pos + i), LV(first2.vec.items, first2.pos + i)])
-                    self.deref(Iter(out.vec, out.pos + i)).store(copy_value(r_))
-                return Iter(out.vec, out.pos + last.pos - first.pos)
+                    self._emit(out, i, r_)
+                return out if isinstance(out, Inserter) else Iter(out.vec, out.pos + last.pos - first.pos)
             if base == "std::not_fn":
                 inner = val(A[0])
                 neg = {"<": ">=", ">": "<=", "<=": ">", ">=": "<", "==": "!=", "!=": "=="}
@@ -1746,9 +1972,12 @@ class Interp:
                 return Iter(o, 0, True)
             if name in ("rend", "crend"):
                 return Iter(o, n, True)
-            if name == "push_back" or name == "emplace_back":
+            if name == "push_back" or (name == "emplace_back" and len(A) == 1 and not self._needs_construct(rq, V[0])):
                 o.items.append(copy_value(A[0]))
                 return None
+            if name == "emplace_back":
+                o.items.append(self._construct_element(rq, A, e))
+                return LV(o.items, len(o.items) - 1)
             if name == "reserve":
                 if V and isinstance(V[0], int) and V[0] > (1 << 60):
                     raise Thrown("std::length_error", None, e.get("l"))
